@@ -31,6 +31,10 @@ TARGETS = {
     'Container.dilute': ({'params': {'solute': _kinds('solute', NON_ENZYME), 'solvent': _kinds('solvent', NON_ENZYME)}},
                          ['dilute: solute and solvent are solids or liquids (the library declares dilution of '
                           'enzymes unsupported; C11 excludes it)']),
+    'Container.dilute#U': ({'params': {'solute': _kinds('solute', ('enzyme',)), 'solvent': _kinds('solvent', NON_ENZYME)},
+                           'interp': {'pc_nums': ('U',), 'linear_from_storage': True}},
+                          ['dilute of an enzyme by an activity concentration: analysed for the storage discipline (C18) only - '
+                           'C11 excludes enzyme solutes']),
     'Container.dataframe': ({}, []),
     'Unit.calculate_concentration_ratio': ({'params': {'solute': _kinds('solute', NON_ENZYME),
                                                        'solvent': _kinds('solvent', NON_ENZYME)},
